@@ -4,9 +4,13 @@ import (
 	"context"
 	"errors"
 	"fmt"
+	"github.com/ipfs/go-datastore/query"
 	"path/filepath"
+	"runtime"
 	"sort"
+	"strings"
 	"sync"
+	"sync/atomic"
 	"time"
 
 	ds "github.com/ipfs/go-datastore"
@@ -68,10 +72,11 @@ type RaftPeer struct {
 	Folder string
 	Tuning RaftTuning
 	// Retries overrides commit_retries (default 2) when set; 0 is legal
-	Retries *int
-	Init    []peer.ID
-	client  *rpc.Client
-	up      bool
+	Retries  *int
+	Init     []peer.ID
+	restores int64
+	client   *rpc.Client
+	up       bool
 	// RefuseRedirects makes the Consensus RPC service fail the next n
 	// redirected LogPin/LogUnpin calls before they reach the component
 	refuseMu        sync.Mutex
@@ -155,11 +160,42 @@ func (p *RaftPeer) mkConfig() *raft.Config {
 	return cfg
 }
 
+// restoreSpy is the datastore handed to the consensus component. It counts
+// the snapshot restores the component performs on it: Raft restores a
+// snapshot by calling Unmarshal on the state (replaceOnRestoreState), which
+// starts by listing what is there - the only Query that comes from below
+// that function. A change that reaches a peer inside a snapshot is not
+// handed to the tracker one operation at a time (the peer's periodic state
+// sync does that), so the hand-off oracle needs to know about it.
+type restoreSpy struct {
+	ds.Datastore
+	n *int64
+}
+
+func (s *restoreSpy) Query(q query.Query) (query.Results, error) {
+	pcs := make([]uintptr, 32)
+	frames := runtime.CallersFrames(pcs[:runtime.Callers(2, pcs)])
+	for {
+		f, more := frames.Next()
+		if strings.Contains(f.Function, "replaceOnRestoreState") {
+			atomic.AddInt64(s.n, 1)
+			break
+		}
+		if !more {
+			break
+		}
+	}
+	return s.Datastore.Query(q)
+}
+
+// Restores is the number of snapshot restores since the peer was created.
+func (p *RaftPeer) Restores() int64 { return atomic.LoadInt64(&p.restores) }
+
 // Start creates the consensus component on the peer's data folder with a
 // fresh in-memory datastore and waits until it is ready.
 func (p *RaftPeer) Start(staging bool) error {
 	p.Cfg = p.mkConfig()
-	cons, err := raft.NewConsensus(p.H, p.Cfg, dssync.MutexWrap(ds.NewMapDatastore()), staging)
+	cons, err := raft.NewConsensus(p.H, p.Cfg, &restoreSpy{Datastore: dssync.MutexWrap(ds.NewMapDatastore()), n: &p.restores}, staging)
 	if err != nil {
 		return err
 	}
